@@ -1,10 +1,12 @@
 //! Replay drivers over the real sierradb-cluster crate (hooks on).
 use replay_common::*;
 
+mod u09;
 mod u10;
 mod u11;
 
 fn main() {
-    main_with(&[Driver { name: "U10", search: u10::search, run: u10::run },
+    main_with(&[Driver { name: "U09", search: u09::search, run: u09::run },
+        Driver { name: "U10", search: u10::search, run: u10::run },
         Driver { name: "U11", search: u11::search, run: u11::run }]);
 }
